@@ -8,6 +8,7 @@ balancer decision functions meeting the C06 contract, any attempt outcomes.
 import Olla.Model.Repository
 import Olla.Spec.C03
 import Olla.Props.C06
+import Olla.Spec.State
 
 namespace Olla.Props.C03
 open Olla.Model.Balancer Olla.Model.Retry Olla.Model.Repository Olla.Spec.C03
@@ -470,5 +471,14 @@ example : uniqueIds exRepo := by unfold uniqueIds; decide
 example : ((run .copy (init exRepo) exHistory).log.map (fun d => (d.rid, d.target))) = [(1, 0), (2, 1), (1, 1), (3, 0)] := by decide
 example : statusOf (run .copy (init exRepo) (exHistory.take 2)).repo 0 = some "offline" := by decide
 example : noReadmission 0 (exHistory.drop 2 |>.take 3) := by simp [exHistory, noReadmission]
+
+/-! ### tie: no process-wide state on the modelled path
+
+The theorems above are about single calls (or the history of one object). They cover every
+request of a running process only if a call reaches no state that outlives it besides that
+object. `Olla.Gen.State` is re-read from the source on every run: the package-level variables
+reachable from each function inside its package that the package changes after initialisation. -/
+theorem C03_tie_no_process_wide_state :
+    Olla.Spec.State.reachesOnly "registry.GetRoutableEndpointsForModel" [] = true := by decide
 
 end Olla.Props.C03
